@@ -8,7 +8,7 @@ Text is `List UInt8` (the UTF-8 bytes of the Rust `&str`). Two places of the Rus
   `should_break_with_space` only fires on ASCII pairs; the last byte of a non-ASCII char is a
   continuation byte (0x80..0xBF), its first byte is ≥ 0xC0, so comparing the last/first *byte*
   gives the same answer;
-* `is_single_line_comment` mixes a `char` index with a byte range (see `isSingleLineComment`).
+* `is_single_line_comment` uses a `char` index in a byte range (see `isSingleLineComment`).
 
 The output is kept reversed (`rout`) so that appending is linear; `State.out` is the text.
 `pads`, `uncomments`, `spaces` are ghost counters (the Rust struct has none): they count the
@@ -38,11 +38,12 @@ def shouldBreakWithSpace (e n : UInt8) : Bool :=
 /-- UTF-8 continuation byte (`0b10xxxxxx`): not a `char` boundary. -/
 def isContinuation (b : UInt8) : Bool := 128 ≤ b && b < 192
 
-/-- `token_based.rs: is_single_line_comment(content)`.
+/-- `token_based.rs: is_single_line_comment(content)` (after the fix of C18/F27: the byte range is
+`3..3 + k`, and a range that is not on a char boundary means "not a long comment").
 Rust: multi-line iff `content.starts_with("--[")` and the first `'['` found by
 `content.chars().skip(3).enumerate()` has *char* index `k` such that
-`content.get(3..k)` (a *byte* range!) is `None` (→ `unwrap_or(true)`) or consists of `=` only.
-`get(3..k)` is `None` when `k < 3` or `k` is not a char boundary. -/
+`content.get(3..3 + k)` (a *byte* range) is `Some` and consists of `=` only.
+`get(3..3 + k)` is `None` when `3 + k` is not a char boundary (→ `unwrap_or(false)`). -/
 def isSingleLineComment (c : List UInt8) : Bool :=
   match c with
   | 45 :: 45 :: 91 :: rest =>
@@ -50,13 +51,11 @@ def isSingleLineComment (c : List UInt8) : Bool :=
     if pre.length == rest.length then true      -- no second '[': single line
     else
       let k := pre.countP (fun b => !isContinuation b)   -- char index of that '['
-      if k < 3 then false
-      else
-        match c[k]? with
-        | none => false
-        | some b =>
-          if isContinuation b then false
-          else !((rest.take (k - 3)).all (· == 61))
+      match rest[k]? with
+      | none => true
+      | some b =>
+        if isContinuation b then true
+        else !((rest.take k).all (· == 61))
   | _ => true
 
 structure State where
